@@ -69,7 +69,7 @@ def operand_pool(w):
     z = ('id', 'z1', 1)
     pool += [('cond', z, a, b), ('cond', z, a, ('int', w, 1)), ('cond', z, b, a),
              ('op', '-', (a,)), ('op', 'parity', (b,)) if w > 1 else ('op', '-', (b,)),
-             ('op', '<<', (a, ('int', w, 1))), ('op', '>>>', (b, a))]
+             ('op', '<<', (a, ('int', w, 1))), ('op', '>>>', (b, a)), ('op', '>>', (a, b)), ('op', '>>', (b, a))]
     for w2 in gen.WIDTHS:
         if w2 > w:
             pool.append(('slice', ('id', 'a%d' % w2, w2), 0, w))
@@ -141,6 +141,47 @@ def check_group(g):
             elif key != ref[0]:
                 return n, ('perm', 'operand order/nesting changes the simplified form: %s -> %s but %s -> %s' % (
                     build_x(ref[1]), expr_simp(build_x(ref[1])), build_x(d), r), {'d1': ref[1], 'd2': d, 'xdesc': None})
+    return n, None
+
+def special_sets(w):
+    """(name, variants): spellings of ONE operand multiset that the small groups cannot reach - long operand lists (more than 8 operands with a
+       duplicate / an opposite pair), operands that differ only far below the root (pointer chains of 40 links)"""
+    out = []
+    xs = [('id', 'x%d_%d' % (w, i), w) for i in range(8)]
+    for op in ('+', '^', '|', '&', '*'):
+        extra = [xs[0], ('op', '-', (xs[1],))] if op == '+' else [xs[0], xs[3]]
+        L = xs + extra
+        vs = [('op', op, tuple(L)), ('op', op, tuple(reversed(L))),
+              ('op', op, (('op', op, tuple(L[:5])), ('op', op, tuple(L[5:])))),
+              ('op', op, (('op', op, (L[0], L[8])), ('op', op, (L[1], L[9])), ('op', op, tuple(L[2:8])))),
+              ('op', op, tuple(L[5:] + L[:5]))]
+        out.append(('long-%s' % op, vs))
+    if w == 32:
+        def chain(leaf, n):
+            d = leaf
+            for _ in range(n):
+                d = ('mem', ('op', '+', (d, ('int', 32, 4))), 32)
+            return d
+        for n in (16, 40):
+            cx, cy = chain(('id', 'x32_0', 32), n), chain(('id', 'x32_1', 32), n)
+            for op in ('+', '^'):
+                out.append(('deep%d-%s' % (n, op), [('op', op, (cx, cy)), ('op', op, (cy, cx)), ('op', op, (cx, cy, xs[2])), ('op', op, (xs[2], cy, cx))][:2]))
+                out.append(('deep%d-%s-3' % (n, op), [('op', op, (cx, cy, xs[2])), ('op', op, (xs[2], cy, cx)), ('op', op, (cy, ('op', op, (xs[2], cx))))]))
+    return out
+
+def check_special(it):
+    from miasmx.expression.expression_helper import expr_simp
+    name, vs = it
+    ref = None
+    n = 0
+    for d in vs:
+        n += 1
+        r = expr_simp(build_x(d))
+        key = (undesc_x(r), str(r))
+        if ref is None: ref = (key, d)
+        elif key != ref[0]:
+            return n, ('perm-' + name, 'operand order/nesting changes the simplified form (%s): %s -> %s but %s -> %s' % (
+                name, str(build_x(ref[1]))[:200], str(expr_simp(build_x(ref[1])))[:200], str(build_x(d))[:200], str(r)[:200]), {'d1': ref[1], 'd2': d, 'xdesc': None})
     return n, None
 
 def contexts(w):
@@ -232,6 +273,11 @@ def _work(job):
                 out['n'] += n
                 if f is None: out['ok'] += 1
                 else: out['fails'].append(('%s[%s over %s]' % (f[0] if f[0].startswith('perm-') else 'perm', it[0], ','.join(dstr_x(x) for x in it[1])), 'perm') + f[1:])
+            elif kind == 'special':
+                n, f = check_special(it)
+                out['n'] += n
+                if f is None: out['ok'] += 1
+                else: out['fails'].append(('%s[w%d]' % (f[0], dwidth_x(it[1][0])), 'perm') + f[1:])
             else:
                 out['n'] += 1
                 f = check_idem(it)
@@ -389,7 +435,8 @@ def main(argv):
     if tier == 'quick':
         trees = trees[::3]
     trees = idem_extra() + trees
-    jobs = [('perm', groups[i:i + 40]) for i in range(0, len(groups), 40)] + [('idem', trees[i:i + 400]) for i in range(0, len(trees), 400)]
+    spec = [x for w in ((8, 32) if tier == 'quick' else (8, 16, 32, 64)) for x in special_sets(w)]
+    jobs = [('perm', groups[i:i + 40]) for i in range(0, len(groups), 40)] + [('idem', trees[i:i + 400]) for i in range(0, len(trees), 400)] + [('special', spec[i:i + 4]) for i in range(0, len(spec), 4)]
     with multiprocessing.get_context('fork').Pool(min(16, os.cpu_count() or 4)) as pool:
         results = pool.map(_work, jobs, chunksize=1)
     evals = sum(r['n'] for r in results)
